@@ -306,6 +306,11 @@ func (p *c01) Init(tier string, seed int64) {
 			{"{% filter f %}", "x", "{% endfilter %}"}, {"{% set s %}", "x", "{% endset %}"}, {"{% if a %}", "x", ""},
 			{"{% if a %}x{% else %}", "y", "{% endif %}"}, {"{% embed 'e' %}{% block b %}", "x", "{% endblock %}{% endembed %}"},
 			{"{%if a%}", "x", "{%endif%}"},
+			// two blocks inside each other per level of embedding, and blocks inside each other alone
+			{"{% embed 'e' %}{% block a %}{% block b %}", "x", "{% endblock %}{% endblock %}{% endembed %}"},
+			{"{% embed 'e' %}{% block a %}y{% block b %}{% if c %}", "x", "{% endif %}{% endblock %}{% block c %}z{% endblock %}{% endblock %}{% endembed %}"},
+			{"{% block a %}{% block b %}", "x", "{% endblock %}{% endblock %}"},
+			{"{% macro m() %}{% embed 'e' %}{% block a %}{% filter f %}{% block b %}", "x", "{% endblock %}{% endfilter %}{% endblock %}{% endembed %}{% endmacro %}"},
 		}
 		n := (len(lads)*3 + len(tags)) * len(depths)
 		p.add("ladder", n, func(i int) string {
